@@ -96,4 +96,14 @@ var specs = map[string]*propSpec{
 		Faults: "abrupt client close, close frames, protocol violations, server write failures, init rejection/stall/timeout, server shutdown, keep-alive ticks and read deadlines firing between events",
 		Assume: []string{"ids are unique per connection (the statement does not say what a server owes a client that reuses an active id)", "payload:null start messages are C10's concern"},
 	},
+	"C20": {
+		ID: "C20", Scenario: "fedsim", Race: true, Level: "fault_enumeration", Cpu: 4,
+		Quick:    tierSpec{Runs: 30000, Budget: 75 * time.Second, Fed: []string{"f0", "f2"}},
+		Thorough: tierSpec{Runs: 1500000, Budget: 15 * time.Minute, Fed: []string{"f0", "f1", "f2"}},
+		Real:     []string{"federation runtime generated at check time from plugin/federation/federation.gotpl (representation grouping, per-type and per-entity goroutines, resolver selection by key, requires population)", "plugin/federation/fedruntime", "graphql/executor and generated executor"},
+		Stubbed:  []string{"entity resolvers (echo resolvers that park at the scheduler and fail per plan)", "goroutine completion order (scheduler: first, seeded, burst)"},
+		Rule: "one run = one _entities request with 0-8 representations over 6 entity types (single key, two alternative keys incl. an all-null first key, nested key, @requires, two batch/multi resolvers), few distinct key values so that duplicates and interleaved types are frequent, with no fault, one fault or a seeded pair from {resolver error, resolver panic, key of a JSON type the scalar rejects, missing key, unknown __typename, non-string __typename}; every resolver call parks and is released in a tape-chosen order. Oracle: element i equals the echo computed from representation i alone, or is null when representation i (or, for a batch resolver fault, its batch) was faulted; no fault means no error and a fault means at least one; RecoverFunc once per panicking call; race detector on. non-trivial = at least two representations; distinct = hash of (variant, representations with faults, schedule, event log)",
+		Faults: "single and paired faults per representation: resolver error/panic, wrong-type key, missing key, unknown/non-string __typename; completion orders of per-type groups and per-entity goroutines",
+		Assume: []string{"a missing @requires field is outside the statement and not injected", "explicit_requires / computed_requires variants need hand-written user code and are not generated (federation v2 default, function syntax and follow-schema layouts are)"},
+	},
 }
